@@ -77,6 +77,24 @@ PROPS["C06"] = {
                     "binary.AppendUvarint = Route.uvarint (differential-checked via pipeline identity)"],
 }
 
+PROPS["C14"] = {
+    "modules": ["SlogModel.Props.C14"],
+    "components": [("redact", 20000, 400000)],
+    "rule": "one case = one field value through the real redactEmail transform (value and counter compared); all strings of "
+            "length <= 5 (thorough 7) over {a,1,@,.,/,space}, texts built from filler with 0-6 generated addresses (back to "
+            "back, truncated, numeric, digit-edged domains); distinct by bytes; non-trivial = contains '@'",
+    "level_text": "Theorems C14_no_at_unchanged, C14_spans_ordered (spans non-empty, ordered, disjoint, inside the text: the output "
+                  "is the text with exactly these spans replaced, everything else preserved), C14_length, proved in Lean 4 on an "
+                  "index-faithful model of redactemail.go. PARTIAL: completeness (every address of the supported shape lies inside "
+                  "the spans) and soundness (only such addresses are redacted) are not yet Lean theorems; they are decided by the "
+                  "correspondence run, whose oracle compares the implementation with a reference redactor written from the "
+                  "property's wording. Two recorded deviations from the letter of 'domain not purely numeric' are known findings.",
+    "level_note": "Trusted: Lean kernel + 3 standard axioms; sampled model-code correspondence; the formalisation of the supported "
+                  "address shape (harness oracle / DESIGN.md C14).",
+    "partial": "C14_complete / C14_sound pending as theorems",
+    "assumptions": [],
+}
+
 NOT_APPLICABLE = {k: "check not built yet in this round (planned in DESIGN.md section 6); no claim is made" for k in
                   ["C%02d" % i for i in range(1, 20)]}
 
